@@ -148,6 +148,10 @@ func (r *Reader) Read(p []byte) (n int, err error) {
 func (r *Reader) Discard() (err error) {
 	for {
 		_, err = io.Copy(ioutil.Discard, &r.raw)
+		if err == nil && r.raw.N != 0 {
+			// Source has ended before the end of the frame.
+			err = io.ErrUnexpectedEOF
+		}
 		if err != nil {
 			break
 		}
